@@ -3,19 +3,614 @@ From Verif Require Import Base.GoInt Base.Lanes Base.LanesProofs Generated.AsmAs
 From Coq Require Import ZifyBool.
 Open Scope Z_scope.
 
+(* ---------- the table and the scalar predicates ---------- *)
+
 Lemma lower_table : lower_table_statement.
-Admitted.
+Proof.
+  intros b Hb. apply Z.eqb_eq.
+  apply (byte_sweep (fun b => nth (Z.to_nat b) asm_lowerCase 0 =? lower b)); [vm_compute; reflexivity|assumption].
+Qed.
+
 Lemma byte_rune_spec : byte_rune_statement.
-Admitted.
+Proof.
+  intros b.
+  unfold ascii_ValidByte, ascii_ValidRune, ascii_ValidPrintByte, ascii_ValidPrintRune,
+    asm_ValidByte, asm_ValidRune, asm_ValidPrintByte, asm_ValidPrintRune, is_ascii, is_print.
+  repeat split; lia.
+Qed.
+
+(* ---------- small helpers ---------- *)
+
+Lemma w64_small x : 0 <= x < 2 ^ 64 -> w64 x = x.
+Proof. intros H. unfold w64. apply Z.mod_small. assumption. Qed.
+
+Lemma skipn_add {A} (c k : nat) (l : list A) : skipn c (skipn k l) = skipn (c + k) l.
+Proof.
+  revert l; induction k as [|k IH]; intros l.
+  - rewrite Nat.add_0_r. reflexivity.
+  - rewrite Nat.add_succ_r. destruct l as [|x l]; [rewrite !skipn_nil; reflexivity|].
+    cbn [skipn]. apply IH.
+Qed.
+
+Lemma wfb_app xs ys : wfb (xs ++ ys) = true <-> wfb xs = true /\ wfb ys = true.
+Proof. unfold wfb. rewrite forallb_app, andb_true_iff. tauto. Qed.
+
+Lemma wfb_firstn k xs : wfb xs = true -> wfb (firstn k xs) = true.
+Proof. intros H. rewrite <- (firstn_skipn k xs) in H. apply wfb_app in H. tauto. Qed.
+
+Lemma wfb_skipn k xs : wfb xs = true -> wfb (skipn k xs) = true.
+Proof. intros H. rewrite <- (firstn_skipn k xs) in H. apply wfb_app in H. tauto. Qed.
+
+Lemma iff_eqb0 x (b : bool) : (x = 0 <-> b = true) -> (x =? 0) = b.
+Proof. intros H. destruct (Z.eqb_spec x 0) as [E|E]; destruct b; intuition congruence. Qed.
+
+Lemma forallb_andb {A} (p q : A -> bool) l :
+  forallb (fun x => p x && q x) l = forallb p l && forallb q l.
+Proof.
+  induction l as [|x l IH]; [reflexivity|]. cbn [forallb]. rewrite IH.
+  destruct (p x), (q x), (forallb p l); reflexivity.
+Qed.
+
+(* ---------- the common shape of ValidString / ValidPrintString ---------- *)
+
+Section VLoop.
+  Variables (bad8 bad4 : Z -> bool) (tl : bytes -> Z -> option bool).
+  Variables (s : bytes) (n : Z).
+
+  Definition vk3 (i : Z) : option bool :=
+    if i =? n then Some true else tl (slice_from s i) (sub64 n i).
+  Definition vk4 (i : Z) : option bool :=
+    if add64 i 4 <=? n then
+      (if bad4 (le32 (slice_from s i)) then Some false else vk3 (add64 i 4))
+    else vk3 i.
+  Fixpoint vloop (fuel : nat) (i : Z) {struct fuel} : option bool :=
+    match fuel with
+    | O => None
+    | S f => if add64 i 8 <=? n then
+               (if bad8 (le64 (slice_from s i)) then Some false else vloop f (add64 i 8))
+             else vk4 i
+    end.
+
+  Variable ok : Z -> bool.
+  Hypothesis H8 : forall l, wfb l = true -> length l = 8%nat -> bad8 (le_load 8 l) = negb (forallb ok l).
+  Hypothesis H4 : forall l, wfb l = true -> length l = 4%nat -> bad4 (le_load 4 l) = negb (forallb ok l).
+  Hypothesis Htl : forall l, wfb l = true -> (1 <= length l <= 3)%nat -> tl l (len l) = Some (forallb ok l).
+  Hypothesis Hs : wfb s = true.
+  Hypothesis Hn : n = len s.
+  Hypothesis Hb : len s < 2 ^ 63.
+
+  Lemma chunk_split c k :
+    forallb ok (skipn k s) = forallb ok (firstn c (skipn k s)) && forallb ok (skipn (c + k) s).
+  Proof. rewrite <- skipn_add, <- forallb_app, firstn_skipn. reflexivity. Qed.
+
+  Lemma slice_from_nat k : slice_from s (Z.of_nat k) = skipn k s.
+  Proof. unfold slice_from. rewrite Nat2Z.id. reflexivity. Qed.
+
+  Lemma add64_nat k c : (k <= length s)%nat -> 0 <= c <= 8 ->
+    add64 (Z.of_nat k) c = Z.of_nat (Z.to_nat c + k).
+  Proof.
+    intros Hk Hc. unfold add64. rewrite w64_small; [lia|]. unfold len in Hb. lia.
+  Qed.
+
+  Lemma vk3_spec k : (k <= length s)%nat -> (length s - k <= 3)%nat ->
+    vk3 (Z.of_nat k) = Some (forallb ok (skipn k s)).
+  Proof.
+    intros Hk Hr. unfold vk3. subst n. unfold len in *.
+    destruct (Z.eqb_spec (Z.of_nat k) (Z.of_nat (length s))) as [E|E].
+    - apply Nat2Z.inj in E. subst k. rewrite skipn_all. reflexivity.
+    - rewrite slice_from_nat.
+      assert (EL : sub64 (Z.of_nat (length s)) (Z.of_nat k) = len (skipn k s)).
+      { unfold sub64, len. rewrite skipn_length, w64_small; lia. }
+      rewrite EL. apply Htl; [apply wfb_skipn; assumption|]. rewrite skipn_length. lia.
+  Qed.
+
+  Lemma vk4_spec k : (k <= length s)%nat -> (length s - k < 8)%nat ->
+    vk4 (Z.of_nat k) = Some (forallb ok (skipn k s)).
+  Proof.
+    intros Hk Hr. unfold vk4. rewrite (add64_nat k 4) by lia. change (Z.to_nat 4) with 4%nat.
+    destruct (Z.leb_spec (Z.of_nat (4 + k)) n) as [L|L]; rewrite Hn in L; unfold len in L.
+    - rewrite slice_from_nat. unfold le32. rewrite le_load_firstn.
+      rewrite H4; [|apply wfb_firstn, wfb_skipn; assumption|rewrite firstn_length, skipn_length; lia].
+      rewrite (chunk_split 4 k).
+      destruct (forallb ok (firstn 4 (skipn k s))); cbn [negb andb]; [|reflexivity].
+      apply vk3_spec; lia.
+    - apply vk3_spec; lia.
+  Qed.
+
+  Lemma vloop_spec fuel : forall k, (k <= length s)%nat -> (length s - k < 8 * fuel)%nat ->
+    vloop fuel (Z.of_nat k) = Some (forallb ok (skipn k s)).
+  Proof.
+    induction fuel as [|f IH]; intros k Hk Hr; [lia|].
+    cbn [vloop]. rewrite (add64_nat k 8) by lia. change (Z.to_nat 8) with 8%nat.
+    destruct (Z.leb_spec (Z.of_nat (8 + k)) n) as [L|L]; rewrite Hn in L; unfold len in L.
+    - rewrite slice_from_nat. unfold le64. rewrite le_load_firstn.
+      rewrite H8; [|apply wfb_firstn, wfb_skipn; assumption|rewrite firstn_length, skipn_length; lia].
+      rewrite (chunk_split 8 k).
+      destruct (forallb ok (firstn 8 (skipn k s))); cbn [negb andb]; [|reflexivity].
+      apply IH; lia.
+    - apply vk4_spec; lia.
+  Qed.
+
+  Lemma vloop_total : vloop (S (length s)) 0 = Some (forallb ok s).
+  Proof. apply (vloop_spec (S (length s)) 0%nat); lia. Qed.
+End VLoop.
+
+(* ---------- ValidString ---------- *)
+
+Definition valid_tl (p : bytes) (tag : Z) : option bool :=
+  let k1_ := fun (x : Z) => Some ((and32 x 2155905152) =? 0) in
+  if (tag =? 3) then k1_ (or32 (le16 p) (shl32 (at_ p 2) 16))
+  else if (tag =? 2) then k1_ (le16 p)
+  else if (tag =? 1) then k1_ (at_ p 0)
+  else Some true.
+
+Lemma asm_ValidString_vloop fuel s :
+  asm_ValidString fuel s =
+  vloop (fun w => negb (and64 w 9259542123273814144 =? 0))
+        (fun w => negb (and32 w 2155905152 =? 0)) valid_tl s (w64 (len s)) fuel 0.
+Proof. reflexivity. Qed.
+
+Lemma lor4 a b c d a' b' c' d' :
+  wfb [a; b; c; d] = true -> wfb [a'; b'; c'; d'] = true ->
+  Z.lor (le_load 4 [a; b; c; d]) (le_load 4 [a'; b'; c'; d'])
+  = le_load 4 [Z.lor a a'; Z.lor b b'; Z.lor c c'; Z.lor d d'].
+Proof. intros H1 H2. rewrite le_load_lor by auto. reflexivity. Qed.
+
+Lemma le16_lanes a b r : le16 (a :: b :: r) = le_load 4 [a; b; 0; 0].
+Proof. unfold le16. cbn [le_load]. ring. Qed.
+
+Lemma byte_lanes a : a = le_load 4 [a; 0; 0; 0].
+Proof. cbn [le_load]. ring. Qed.
+
+Lemma shl16_lanes c : 0 <= c < 256 -> shl32 c 16 = le_load 4 [0; 0; c; 0].
+Proof.
+  intros Hc. unfold shl32. change (16 <? 32) with true. cbv iota.
+  rewrite Z.shiftl_mul_pow2 by lia. unfold w32.
+  change (2 ^ 16) with 65536. change (2 ^ 32) with 4294967296. rewrite Z.mod_small by lia.
+  cbn [le_load]. ring.
+Qed.
+
+Lemma wfb4 a b c d : 0 <= a < 256 -> 0 <= b < 256 -> 0 <= c < 256 -> 0 <= d < 256 -> wfb [a; b; c; d] = true.
+Proof. intros. repeat (apply wfb_cons; split; [assumption|]). reflexivity. Qed.
+
+Lemma msb4_ascii l : wfb l = true -> length l = 4%nat ->
+  (and32 (le_load 4 l) 2155905152 =? 0) = forallb is_ascii l.
+Proof.
+  intros Hl Ll. apply iff_eqb0. unfold and32. change 2155905152 with (msbN 4).
+  apply msb_flags_zero_iff; assumption.
+Qed.
+
+Lemma msb8_ascii l : wfb l = true -> length l = 8%nat ->
+  (and64 (le_load 8 l) 9259542123273814144 =? 0) = forallb is_ascii l.
+Proof.
+  intros Hl Ll. apply iff_eqb0. unfold and64. change 9259542123273814144 with (msbN 8).
+  apply msb_flags_zero_iff; assumption.
+Qed.
+
+Ltac wfb_split :=
+  repeat match goal with
+         | H : wfb (_ :: _) = true |- _ =>
+           let B := fresh "B" in apply wfb_cons in H; destruct H as [B H]
+         end.
+
+Lemma valid_tl_spec l : wfb l = true -> (1 <= length l <= 3)%nat ->
+  valid_tl l (len l) = Some (forallb is_ascii l).
+Proof.
+  intros Hl Ll. destruct l as [|a [|b [|c [|d l]]]]; cbn [length] in Ll; try lia; wfb_split.
+  - change (len [a]) with 1. unfold valid_tl. cbv beta zeta.
+    change (1 =? 3) with false. change (1 =? 2) with false. change (1 =? 1) with true. cbv iota.
+    change (at_ [a] 0) with a. rewrite (byte_lanes a) at 1.
+    rewrite msb4_ascii by (first [apply wfb4; lia | reflexivity]). cbn [forallb].
+    change (is_ascii 0) with true. rewrite !andb_true_r. reflexivity.
+  - change (len [a; b]) with 2. unfold valid_tl. cbv beta zeta.
+    change (2 =? 3) with false. change (2 =? 2) with true. cbv iota.
+    rewrite le16_lanes.
+    rewrite msb4_ascii by (first [apply wfb4; lia | reflexivity]). cbn [forallb].
+    change (is_ascii 0) with true. rewrite !andb_true_r. reflexivity.
+  - change (len [a; b; c]) with 3. unfold valid_tl. cbv beta zeta.
+    change (3 =? 3) with true. cbv iota.
+    change (at_ [a; b; c] 2) with c. rewrite le16_lanes, shl16_lanes by assumption.
+    unfold or32. rewrite lor4 by (apply wfb4; lia).
+    rewrite !Z.lor_0_r, !Z.lor_0_l.
+    rewrite msb4_ascii by (first [apply wfb4; lia | reflexivity]). cbn [forallb].
+    change (is_ascii 0) with true. rewrite !andb_true_r. reflexivity.
+Qed.
+
+Lemma asm_ValidString_spec s : wfb s = true -> len s < 2 ^ 63 ->
+  asm_ValidString (S (length s)) s = Some (forallb is_ascii s).
+Proof.
+  intros Hs Hb. rewrite asm_ValidString_vloop.
+  apply vloop_total; auto.
+  - intros l Hl Ll. rewrite msb8_ascii by assumption. reflexivity.
+  - intros l Hl Ll. rewrite msb4_ascii by assumption. reflexivity.
+  - apply valid_tl_spec.
+  - apply w64_small. unfold len in *. lia.
+Qed.
+
+Lemma valid_spec_bounded :
+  forall s, wfb s = true -> len s < 2 ^ 63 ->
+    ascii_ValidString s = forallb is_ascii s /\ ascii_Valid s = forallb is_ascii s.
+Proof.
+  intros s Hs Hb.
+  unfold ascii_ValidString, ascii_Valid, asmt_ValidString, asmt_Valid, asm_Valid, id.
+  rewrite asm_ValidString_spec by assumption. split; reflexivity.
+Qed.
+
+(* length bound: the model stores the length as w64 (len s); proved above as
+   [valid_spec_bounded] under [len s < 2^63]; the unbounded statement is refuted below
+   ([valid_statement_needs_bound]: 2^64 non-ASCII bytes give n = 0 and the answer true). *)
 Lemma valid_spec : valid_statement.
-Admitted.
+Proof. exact valid_spec_bounded. Qed.
+(* ---------- ValidPrintString ---------- *)
+
+Definition bad_print32 (w : Z) : bool := asm_hasLess32 w 32 || asm_hasMore32 w 126.
+Definition bad_print64 (w : Z) : bool := asm_hasLess64 w 32 || asm_hasMore64 w 126.
+
+Definition print_tl (p : bytes) (tag : Z) : option bool :=
+  let k1_ := fun (x : Z) => Some (negb ((asm_hasLess32 x 32) || (asm_hasMore32 x 126))) in
+  if (tag =? 3) then k1_ (or32 (or32 536870912 (le16 p)) (shl32 (at_ p 2) 16))
+  else if (tag =? 2) then k1_ (or32 538968064 (le16 p))
+  else if (tag =? 1) then k1_ (or32 538976256 (at_ p 0))
+  else Some true.
+
+Lemma asm_ValidPrintString_vloop fuel s :
+  asm_ValidPrintString fuel s = vloop bad_print64 bad_print32 print_tl s (w64 (len s)) fuel 0.
+Proof. reflexivity. Qed.
+
+Lemma hasLess32_mask x : asm_hasLess32 x 32 = negb (hasless_mask 4 x 32 =? 0).
+Proof. reflexivity. Qed.
+Lemma hasMore32_mask x : asm_hasMore32 x 126 = negb (hasmore_mask 4 x 126 =? 0).
+Proof. reflexivity. Qed.
+Lemma hasLess64_mask x : asm_hasLess64 x 32 = negb (hasless_mask 8 x 32 =? 0).
+Proof. reflexivity. Qed.
+Lemma hasMore64_mask x : asm_hasMore64 x 126 = negb (hasmore_mask 8 x 126 =? 0).
+Proof. reflexivity. Qed.
+
+Lemma is_print_split l :
+  forallb is_print l = forallb (fun b => 32 <=? b) l && forallb (fun b => b <=? 126) l.
+Proof. apply (forallb_andb (fun b => 32 <=? b) (fun b => b <=? 126)). Qed.
+
+Lemma bad_print32_spec l : wfb l = true -> length l = 4%nat ->
+  bad_print32 (le_load 4 l) = negb (forallb is_print l).
+Proof.
+  intros Hl Ll. unfold bad_print32. rewrite hasLess32_mask, hasMore32_mask, is_print_split.
+  rewrite (iff_eqb0 _ _ (hasless_zero_iff 4 l 32 Hl Ll ltac:(lia))).
+  rewrite (iff_eqb0 _ _ (hasmore_zero_iff 4 l 126 Hl Ll ltac:(lia))).
+  rewrite negb_andb. reflexivity.
+Qed.
+
+Lemma bad_print64_spec l : wfb l = true -> length l = 8%nat ->
+  bad_print64 (le_load 8 l) = negb (forallb is_print l).
+Proof.
+  intros Hl Ll. unfold bad_print64. rewrite hasLess64_mask, hasMore64_mask, is_print_split.
+  rewrite (iff_eqb0 _ _ (hasless_zero_iff 8 l 32 Hl Ll ltac:(lia))).
+  rewrite (iff_eqb0 _ _ (hasmore_zero_iff 8 l 126 Hl Ll ltac:(lia))).
+  rewrite negb_andb. reflexivity.
+Qed.
+
+Lemma print_tl_spec l : wfb l = true -> (1 <= length l <= 3)%nat ->
+  print_tl l (len l) = Some (forallb is_print l).
+Proof.
+  intros Hl Ll. destruct l as [|a [|b [|c [|d l]]]]; cbn [length] in Ll; try lia; wfb_split.
+  - change (len [a]) with 1. unfold print_tl. cbv beta zeta.
+    change (1 =? 3) with false. change (1 =? 2) with false. change (1 =? 1) with true. cbv iota.
+    change (at_ [a] 0) with a. rewrite (byte_lanes a) at 1 2.
+    change 538976256 with (le_load 4 [0; 32; 32; 32]).
+    unfold or32. rewrite lor4 by (apply wfb4; lia).
+    rewrite !Z.lor_0_r, !Z.lor_0_l.
+    fold (bad_print32 (le_load 4 [a; 32; 32; 32])).
+    rewrite bad_print32_spec by (first [apply wfb4; lia | reflexivity]).
+    rewrite negb_involutive. cbn [forallb].
+    change (is_print 32) with true. rewrite !andb_true_r. reflexivity.
+  - change (len [a; b]) with 2. unfold print_tl. cbv beta zeta.
+    change (2 =? 3) with false. change (2 =? 2) with true. cbv iota.
+    rewrite le16_lanes.
+    change 538968064 with (le_load 4 [0; 0; 32; 32]).
+    unfold or32. rewrite lor4 by (apply wfb4; lia).
+    rewrite !Z.lor_0_r, !Z.lor_0_l.
+    fold (bad_print32 (le_load 4 [a; b; 32; 32])).
+    rewrite bad_print32_spec by (first [apply wfb4; lia | reflexivity]).
+    rewrite negb_involutive. cbn [forallb].
+    change (is_print 32) with true. rewrite !andb_true_r. reflexivity.
+  - change (len [a; b; c]) with 3. unfold print_tl. cbv beta zeta.
+    change (3 =? 3) with true. cbv iota.
+    change (at_ [a; b; c] 2) with c. rewrite le16_lanes, shl16_lanes by assumption.
+    change 536870912 with (le_load 4 [0; 0; 0; 32]).
+    unfold or32. rewrite lor4 by (apply wfb4; lia).
+    rewrite !Z.lor_0_r, !Z.lor_0_l.
+    rewrite lor4 by (apply wfb4; lia).
+    rewrite !Z.lor_0_r, !Z.lor_0_l.
+    fold (bad_print32 (le_load 4 [a; b; c; 32])).
+    rewrite bad_print32_spec by (first [apply wfb4; lia | reflexivity]).
+    rewrite negb_involutive. cbn [forallb].
+    change (is_print 32) with true. rewrite !andb_true_r. reflexivity.
+Qed.
+
+Lemma asm_ValidPrintString_spec s : wfb s = true -> len s < 2 ^ 63 ->
+  asm_ValidPrintString (S (length s)) s = Some (forallb is_print s).
+Proof.
+  intros Hs Hb. rewrite asm_ValidPrintString_vloop.
+  apply vloop_total; auto.
+  - apply bad_print64_spec.
+  - apply bad_print32_spec.
+  - apply print_tl_spec.
+  - apply w64_small. unfold len in *. lia.
+Qed.
+
+Lemma valid_print_spec_bounded :
+  forall s, wfb s = true -> len s < 2 ^ 63 ->
+    ascii_ValidPrintString s = forallb is_print s /\ ascii_ValidPrint s = forallb is_print s.
+Proof.
+  intros s Hs Hb.
+  unfold ascii_ValidPrintString, ascii_ValidPrint, asmt_ValidPrintString, asmt_ValidPrint, asm_ValidPrint, id.
+  rewrite asm_ValidPrintString_spec by assumption. split; reflexivity.
+Qed.
+
+(* length bound: as for valid_spec; proved above as [valid_print_spec_bounded] under
+   [len s < 2^63]; refuted unbounded below ([valid_print_statement_needs_bound]). *)
 Lemma valid_print_spec : valid_print_statement.
-Admitted.
+Proof. exact valid_print_spec_bounded. Qed.
+(* ---------- EqualFoldString ---------- *)
+
+Section EFold.
+  Variable f : Z -> Z.
+
+  Definition ed (a b : bytes) (k : Z) : Z := xor8 (f (at_ a k)) (f (at_ b k)).
+
+  Definition ek10 (a b : bytes) (cmp : Z) : option bool :=
+    let k1_ := fun (cmp : Z) => Some (cmp =? 0) in
+    let tag2_ := len a in
+    let k3_ := fun (cmp : Z) => k1_ (or8 cmp (ed a b 0)) in
+    let k4_ := fun (cmp : Z) => k3_ (or8 cmp (ed a b 1)) in
+    let k5_ := fun (cmp : Z) => k4_ (or8 cmp (ed a b 2)) in
+    let k6_ := fun (cmp : Z) => k5_ (or8 cmp (ed a b 3)) in
+    let k7_ := fun (cmp : Z) => k6_ (or8 cmp (ed a b 4)) in
+    let k8_ := fun (cmp : Z) => k7_ (or8 cmp (ed a b 5)) in
+    let k9_ := fun (cmp : Z) => k8_ (or8 cmp (ed a b 6)) in
+    if (tag2_ =? 7) then k9_ cmp
+    else if (tag2_ =? 6) then k8_ cmp
+    else if (tag2_ =? 5) then k7_ cmp
+    else if (tag2_ =? 4) then k6_ cmp
+    else if (tag2_ =? 3) then k5_ cmp
+    else if (tag2_ =? 2) then k4_ cmp
+    else if (tag2_ =? 1) then k3_ cmp
+    else k1_ cmp.
+
+  Fixpoint eloop (fuel : nat) (a b : bytes) (cmp : Z) {struct fuel} : option bool :=
+    match fuel with
+    | O => None
+    | S f13_ =>
+        if (len a >=? 8) then
+          (
+          let cmp := or8 cmp (ed a b 0) in
+          let cmp := or8 cmp (ed a b 1) in
+          let cmp := or8 cmp (ed a b 2) in
+          let cmp := or8 cmp (ed a b 3) in
+          let cmp := or8 cmp (ed a b 4) in
+          let cmp := or8 cmp (ed a b 5) in
+          let cmp := or8 cmp (ed a b 6) in
+          let cmp := or8 cmp (ed a b 7) in
+          if negb (cmp =? 0) then Some false
+          else eloop f13_ (slice_from a 8) (slice_from b 8) cmp)
+        else ek10 a b cmp
+    end.
+
+  Lemma eloop_S fuel a b cmp :
+    eloop (S fuel) a b cmp =
+      if (len a >=? 8) then
+        (let c := or8 (or8 (or8 (or8 (or8 (or8 (or8 (or8 cmp (ed a b 0)) (ed a b 1)) (ed a b 2)) (ed a b 3))
+                   (ed a b 4)) (ed a b 5)) (ed a b 6)) (ed a b 7) in
+         if negb (c =? 0) then Some false
+         else eloop fuel (slice_from a 8) (slice_from b 8) c)
+      else ek10 a b cmp.
+  Proof. reflexivity. Qed.
+
+  Hypothesis Hf : forall x, 0 <= x < 256 -> f x = lower x.
+
+  Lemma fold_eq_cons x y a b : fold_eq (x :: a) (y :: b) = (lower x =? lower y) && fold_eq a b.
+  Proof. reflexivity. Qed.
+
+  Ltac ed_simpl :=
+    unfold ed, at_, or8, xor8;
+    change (Z.to_nat 0) with 0%nat; change (Z.to_nat 1) with 1%nat; change (Z.to_nat 2) with 2%nat;
+    change (Z.to_nat 3) with 3%nat; change (Z.to_nat 4) with 4%nat; change (Z.to_nat 5) with 5%nat;
+    change (Z.to_nat 6) with 6%nat; change (Z.to_nat 7) with 7%nat;
+    cbn [nth].
+
+  Ltac tail_case :=
+    rewrite eloop_S;
+    match goal with |- context [len ?l >=? 8] => change (len l >=? 8) with false end;
+    cbv iota; unfold ek10; cbv beta zeta;
+    repeat match goal with
+           | |- context [len ?l =? ?k] =>
+             let v := eval vm_compute in (len l =? k) in change (len l =? k) with v
+           end;
+    cbv iota; ed_simpl; rewrite ?fold_eq_cons;
+    f_equal; apply eq_true_iff_eq;
+    rewrite ?Z.lor_0_l;
+    rewrite Z.eqb_eq, ?andb_true_iff, ?Z.lor_eq_0_iff, ?Z.lxor_eq_0_iff, ?Z.eqb_eq;
+    rewrite !Hf by assumption;
+    change (fold_eq [] []) with true; intuition congruence.
+
+  Lemma eloop_spec fuel : forall a b, wfb a = true -> wfb b = true -> length a = length b ->
+    (length a < 8 * fuel)%nat -> eloop fuel a b 0 = Some (fold_eq a b).
+  Proof.
+    induction fuel as [|fu IH]; intros a b Ha Hb L Hr; [lia|].
+    do 8 (destruct a as [|?a a]; destruct b as [|?b b]; cbn [length] in L; try discriminate L;
+          [wfb_split; try (rewrite eloop_S; reflexivity); tail_case | apply eq_add_S in L]).
+    wfb_split. rewrite eloop_S.
+    match goal with |- context [len ?l >=? 8] =>
+      assert (G : (len l >=? 8) = true) by (unfold len; cbn [length]; lia); rewrite G; clear G end.
+    unfold slice_from. change (Z.to_nat 8) with 8%nat. cbn [skipn]. cbv zeta.
+    match goal with |- context [negb (?c =? 0)] => set (cc := c) end.
+    rewrite !fold_eq_cons.
+    destruct (Z.eqb_spec cc 0) as [E|E]; cbn [negb].
+    - rewrite E. rewrite IH by (auto; cbn [length] in Hr; lia).
+      subst cc. revert E. ed_simpl. intros E.
+      repeat (apply Z.lor_eq_0_iff in E; let E' := fresh "E" in destruct E as [E E']).
+      repeat match goal with
+             | H : Z.lxor _ _ = 0 |- _ =>
+               apply (proj1 (Z.lxor_eq_0_iff _ _)) in H; rewrite !Hf in H by assumption;
+               apply (proj2 (Z.eqb_eq _ _)) in H; rewrite H; clear H
+             end.
+      reflexivity.
+    - match goal with |- Some false = Some ?r => destruct r eqn:FE; [exfalso|reflexivity] end.
+      apply E. subst cc. ed_simpl.
+      repeat (apply andb_true_iff in FE; let FE' := fresh "FE" in destruct FE as [FE' FE]).
+      rewrite !Hf by assumption.
+      repeat match goal with
+             | H : (lower _ =? lower _) = true |- _ => apply (proj1 (Z.eqb_eq _ _)) in H; rewrite H; clear H
+             end.
+      rewrite !Z.lxor_nilpotent. reflexivity.
+  Qed.
+End EFold.
+
+Definition lc (x : Z) : Z := nth (Z.to_nat x) asm_lowerCase 0.
+
+Lemma asm_EqualFoldString_eloop fuel a b :
+  asm_EqualFoldString fuel a b =
+  if negb (len a =? len b) then Some false else eloop lc fuel a b 0.
+Proof. reflexivity. Qed.
+
+Lemma fold_eq_length a : forall b, fold_eq a b = true -> length a = length b.
+Proof.
+  induction a as [|x a IH]; intros [|y b] H; try reflexivity; try discriminate H.
+  rewrite fold_eq_cons in H. apply andb_true_iff in H. destruct H as [_ H].
+  cbn [length]. f_equal. apply IH. assumption.
+Qed.
+
+Lemma asm_EqualFoldString_spec fuel a b : wfb a = true -> wfb b = true ->
+  (length a < 8 * fuel)%nat -> asm_EqualFoldString fuel a b = Some (fold_eq a b).
+Proof.
+  intros Ha Hb Hr. rewrite asm_EqualFoldString_eloop. unfold len.
+  destruct (Z.eqb_spec (Z.of_nat (length a)) (Z.of_nat (length b))) as [E|E]; cbn [negb].
+  - apply eloop_spec; auto; [exact lower_table|lia].
+  - destruct (fold_eq a b) eqn:FE; [|reflexivity].
+    apply fold_eq_length in FE. lia.
+Qed.
+
 Lemma equal_fold_spec : equal_fold_statement.
-Admitted.
+Proof.
+  intros a b Ha Hb.
+  unfold ascii_EqualFoldString, ascii_EqualFold, asmt_EqualFoldString, asmt_EqualFold, asm_EqualFold, id.
+  rewrite asm_EqualFoldString_spec by (auto; lia). split; reflexivity.
+Qed.
+(* ---------- HasPrefixFold / HasSuffixFold ---------- *)
+
 Lemma has_prefix_fold_spec : has_prefix_fold_statement.
-Admitted.
+Proof.
+  intros s p Hs Hp.
+  unfold ascii_HasPrefixFoldString, ascii_HasPrefixFold, asmt_HasPrefixFoldString, asmt_HasPrefixFold,
+    asm_HasPrefixFoldString, asm_HasPrefixFold, asm_EqualFold, id, has_prefix_fold, slice_to, len.
+  rewrite Nat2Z.id.
+  destruct (Nat.leb_spec (length p) (length s)) as [L|L].
+  - assert (G : (Z.of_nat (length s) >=? Z.of_nat (length p)) = true) by lia. rewrite G.
+    rewrite asm_EqualFoldString_spec;
+      [split; reflexivity|apply wfb_firstn; assumption|assumption|rewrite firstn_length; lia].
+  - assert (G : (Z.of_nat (length s) >=? Z.of_nat (length p)) = false) by lia. rewrite G.
+    split; reflexivity.
+Qed.
+
+Lemma subi64_small a b : 0 <= a - b < 2 ^ 63 -> subi64 a b = a - b.
+Proof.
+  intros H. unfold subi64, s64, w64. cbv zeta.
+  change (2 ^ 63) with 9223372036854775808 in *. change (2 ^ 64) with 18446744073709551616.
+  rewrite Z.mod_small by lia.
+  destruct (Z.ltb_spec (a - b) 9223372036854775808); lia.
+Qed.
+
+Lemma has_suffix_fold_spec_bounded :
+  forall s p, wfb s = true -> wfb p = true -> len s < 2 ^ 63 ->
+    ascii_HasSuffixFoldString s p = has_suffix_fold s p /\ ascii_HasSuffixFold s p = has_suffix_fold s p.
+Proof.
+  intros s p Hs Hp Hb.
+  unfold ascii_HasSuffixFoldString, ascii_HasSuffixFold, asmt_HasSuffixFoldString, asmt_HasSuffixFold,
+    asm_HasSuffixFoldString, asm_HasSuffixFold, asm_EqualFold, id, has_suffix_fold, slice_from, len in *.
+  destruct (Nat.leb_spec (length p) (length s)) as [L|L].
+  - assert (G : (Z.of_nat (length s) >=? Z.of_nat (length p)) = true) by lia. rewrite G.
+    rewrite subi64_small by lia.
+    replace (Z.to_nat (Z.of_nat (length s) - Z.of_nat (length p))) with (length s - length p)%nat by lia.
+    rewrite asm_EqualFoldString_spec;
+      [split; reflexivity|apply wfb_skipn; assumption|assumption|rewrite skipn_length; lia].
+  - assert (G : (Z.of_nat (length s) >=? Z.of_nat (length p)) = false) by lia. rewrite G.
+    split; reflexivity.
+Qed.
+
+(* length bound: [subi64 (len s) (len suffix)] wraps to a negative int when the difference
+   is >= 2^63; proved above as [has_suffix_fold_spec_bounded] under [len s < 2^63]; refuted
+   unbounded below ([has_suffix_fold_statement_needs_bound]: s = 2^63 zero bytes, suffix = []). *)
 Lemma has_suffix_fold_spec : has_suffix_fold_statement.
-Admitted.
+Proof. exact has_suffix_fold_spec_bounded. Qed.
+
+(* ---------- fuel ---------- *)
+
+Lemma fuel_enough_bounded :
+  forall s p, wfb s = true -> wfb p = true -> len s < 2 ^ 63 ->
+    asm_ValidString (S (length s)) s <> None /\ asm_ValidPrintString (S (length s)) s <> None /\
+    asm_EqualFoldString (S (length s)) s p <> None.
+Proof.
+  intros s p Hs Hp Hb.
+  rewrite asm_ValidString_spec, asm_ValidPrintString_spec, asm_EqualFoldString_spec by (auto; lia).
+  repeat split; discriminate.
+Qed.
+
+(* length bound: proved above as [fuel_enough_bounded] under [len s < 2^63] (only the two
+   Valid loops need it; the EqualFold part holds for all lengths, see asm_EqualFoldString_spec).
+   Unbounded it fails (not machine-checked here): for an all-ASCII s with 2^64-8 <= len s < 2^64
+   the index i reaches 2^64-8, [add64 i 8] wraps to 0 <= n, and the loop restarts at 0 for ever,
+   so every finite fuel runs out. *)
 Lemma fuel_enough : fuel_enough_statement.
-Admitted.
+Proof. exact fuel_enough_bounded. Qed.
+
+(* ---------- why the bound is needed: the unbounded statements fail on lists whose length
+   does not fit the machine word the model stores it in ---------- *)
+
+Lemma big_nat (z : Z) : 0 < z -> exists N, Z.of_nat (S N) = z.
+Proof.
+  intros Hz. exists (Nat.pred (Z.to_nat z)). rewrite Nat.succ_pred by lia. apply Z2Nat.id. lia.
+Qed.
+
+Lemma valid_statement_needs_bound : ~ valid_statement_unbounded.
+Proof.
+  intros H. destruct (big_nat (2 ^ 64) ltac:(lia)) as [N HN].
+  destruct (H (repeat 200 (S N)) (wfb_repeat 200 (S N) ltac:(lia))) as [H1 _].
+  unfold ascii_ValidString, asmt_ValidString in H1. rewrite asm_ValidString_vloop in H1.
+  assert (E : w64 (len (repeat 200 (S N))) = 0).
+  { unfold len. rewrite repeat_length, HN. reflexivity. }
+  rewrite E in H1. cbn [vloop] in H1.
+  change (add64 0 8 <=? 0) with false in H1. cbv iota in H1.
+  unfold vk4, vk3 in H1. change (add64 0 4 <=? 0) with false in H1. change (0 =? 0) with true in H1.
+  cbv iota in H1. cbn [run_fuel repeat forallb] in H1. change (is_ascii 200) with false in H1.
+  discriminate H1.
+Qed.
+
+Lemma valid_print_statement_needs_bound : ~ valid_print_statement_unbounded.
+Proof.
+  intros H. destruct (big_nat (2 ^ 64) ltac:(lia)) as [N HN].
+  destruct (H (repeat 200 (S N)) (wfb_repeat 200 (S N) ltac:(lia))) as [H1 _].
+  unfold ascii_ValidPrintString, asmt_ValidPrintString in H1. rewrite asm_ValidPrintString_vloop in H1.
+  assert (E : w64 (len (repeat 200 (S N))) = 0).
+  { unfold len. rewrite repeat_length, HN. reflexivity. }
+  rewrite E in H1. cbn [vloop] in H1.
+  change (add64 0 8 <=? 0) with false in H1. cbv iota in H1.
+  unfold vk4, vk3 in H1. change (add64 0 4 <=? 0) with false in H1. change (0 =? 0) with true in H1.
+  cbv iota in H1. cbn [run_fuel repeat forallb] in H1. change (is_print 200) with false in H1.
+  discriminate H1.
+Qed.
+
+Lemma has_suffix_fold_statement_needs_bound : ~ has_suffix_fold_statement_unbounded.
+Proof.
+  intros H. destruct (big_nat (2 ^ 63) ltac:(lia)) as [N HN].
+  destruct (H (repeat 0 (S N)) [] (wfb_repeat 0 (S N) ltac:(lia)) eq_refl) as [H1 _].
+  unfold ascii_HasSuffixFoldString, asmt_HasSuffixFoldString, asm_HasSuffixFoldString, has_suffix_fold in H1.
+  assert (E : len (repeat 0 (S N)) = 2 ^ 63).
+  { unfold len. rewrite repeat_length. exact HN. }
+  rewrite E in H1. change (len (@nil Z)) with 0 in H1.
+  change (2 ^ 63 >=? 0) with true in H1. cbv iota in H1.
+  change (subi64 (2 ^ 63) 0) with (- 2 ^ 63) in H1.
+  unfold slice_from in H1. change (Z.to_nat (- 2 ^ 63)) with 0%nat in H1. cbn [skipn] in H1.
+  rewrite asm_EqualFoldString_eloop in H1. rewrite E in H1. change (len (@nil Z)) with 0 in H1.
+  change (negb (2 ^ 63 =? 0)) with true in H1. cbv iota in H1.
+  cbn [obind run_fuel length Nat.leb andb] in H1.
+  rewrite Nat.sub_0_r, skipn_all in H1. discriminate H1.
+Qed.
